@@ -205,13 +205,14 @@ class Req:
     """semantic request: method, path (origin-form incl. query), header list, optional body"""
 
     def __init__(self, method, target, headers=(), body=None, authority="c08.test", tag=None,
-                 raw_h1=None, chunked=False, abort=None):
+                 raw_h1=None, chunked=False, abort=None, raw_h2=None):
         self.method, self.target, self.headers, self.body = method, target, list(headers), body
         self.authority = authority
         self.tag = tag or ("%s %s" % (method, target))
         self.raw_h1 = raw_h1          # malformed h1 message sent verbatim (history only)
         self.chunked = chunked        # h1.1: send the body chunked (history only)
         self.abort = abort            # number of body bytes actually sent before the client gives up
+        self.raw_h2 = raw_h2          # header field list of the HTTP/2 analogue of a malformed message
 
     def is_head(self):
         return self.method == "HEAD"
@@ -244,6 +245,8 @@ class Req:
         return out
 
     def h2_fields(self):
+        if self.raw_h2 is not None:
+            return list(self.raw_h2)
         hs = [(":method", self.method), (":scheme", "http"), (":path", self.target),
               (":authority", self.authority)]
         for k, v in self.headers:
@@ -289,7 +292,7 @@ PROBES = [
     Req("GET", "/cgi/env.pl/path/info?z=%20"),
     Req("GET", "/cgi/env.pl?status=404"),
     Req("POST", "/cgi/env.pl", [("Content-Type", "application/x-www-form-urlencoded")], body=b"k=v&long=" + b"x" * 50),
-    Req("POST", "/cgi/env.pl?hdr=abc", [("Content-Type", "text/plain")], body=det_bytes("post", 70000), tag="POST env big"),
+    Req("POST", "/cgi/env.pl?hdr=abc", [("Content-Type", "text/plain")], body=det_bytes("post", 60000), tag="POST env big"),
     Req("POST", "/files/a.txt", body=b"ignored"),
     Req("GET", "/rw/env/hello?orig=1"),
     Req("GET", "/rw/file/b.txt"),
@@ -316,23 +319,34 @@ PROBES = [
 # history-only requests (never compared themselves; they dirty the connection / request objects)
 def _hist_pool():
     H = []
-    H.append(Req("GET", "/files/a.txt", tag="h:bad-ctl", raw_h1=b"GET /files/a\x01.txt HTTP/1.1\r\nHost: c08.test\r\n\r\n"))
-    H.append(Req("GET", "/", tag="h:no-host-11", raw_h1=b"GET /files/a.txt HTTP/1.1\r\n\r\n"))
-    H.append(Req("GET", "/", tag="h:bad-version", raw_h1=b"GET /files/a.txt HTTP/2.7\r\nHost: c08.test\r\n\r\n"))
+    std = [(":method", "GET"), (":scheme", "http"), (":path", "/files/a.txt"), (":authority", "c08.test")]
+    H.append(Req("GET", "/files/a.txt", tag="h:bad-ctl", raw_h1=b"GET /files/a\x01.txt HTTP/1.1\r\nHost: c08.test\r\n\r\n",
+                 raw_h2=[(":method", "GET"), (":scheme", "http"), (":path", "/files/a\x01.txt"), (":authority", "c08.test")]))
+    H.append(Req("GET", "/", tag="h:no-host-11", raw_h1=b"GET /files/a.txt HTTP/1.1\r\n\r\n", raw_h2=std[:3]))
+    H.append(Req("GET", "/", tag="h:bad-version", raw_h1=b"GET /files/a.txt HTTP/2.7\r\nHost: c08.test\r\n\r\n",
+                 raw_h2=std + [(":path", "/files/b.txt")]))
     H.append(Req("GET", "/", tag="h:two-cl", raw_h1=b"POST /cgi/env.pl HTTP/1.1\r\nHost: c08.test\r\nContent-Length: 3\r\n"
-                 b"Content-Length: 4\r\n\r\nabcd"))
+                 b"Content-Length: 4\r\n\r\nabcd",
+                 raw_h2=[(":method", "POST"), (":scheme", "http"), (":path", "/cgi/env.pl"), (":authority", "c08.test"),
+                         ("content-length", "3"), ("content-length", "4")]))
     H.append(Req("GET", "/", tag="h:431", raw_h1=b"GET /files/a.txt?flag=1 HTTP/1.1\r\nHost: c08.test\r\nX-Variant: b\r\nX-Big: "
-                 + b"y" * 9000 + b"\r\n\r\n"))
-    H.append(Req("GET", "/", tag="h:post-411", raw_h1=b"POST /cgi/env.pl HTTP/1.1\r\nHost: c08.test\r\n\r\n"))
-    H.append(Req("GET", "/", tag="h:unknown-method", raw_h1=b"BREW /files/a.txt HTTP/1.1\r\nHost: c08.test\r\n\r\n"))
-    H.append(Req("GET", "/", tag="h:te-gzip", raw_h1=b"POST /cgi/env.pl HTTP/1.1\r\nHost: c08.test\r\nTransfer-Encoding: gzip\r\n\r\n"))
+                 + b"y" * 9000 + b"\r\n\r\n",
+                 raw_h2=[(":method", "GET"), (":scheme", "http"), (":path", "/files/a.txt?flag=1"), (":authority", "c08.test"),
+                         ("x-variant", "b"), ("x-big", "y" * 9000)]))
+    H.append(Req("GET", "/", tag="h:post-411", raw_h1=b"POST /cgi/env.pl HTTP/1.1\r\nHost: c08.test\r\n\r\n",
+                 raw_h2=std + [("x-variant", "b"), (":method", "GET")]))
+    H.append(Req("GET", "/", tag="h:unknown-method", raw_h1=b"BREW /files/a.txt HTTP/1.1\r\nHost: c08.test\r\n\r\n",
+                 raw_h2=[(":method", "BREW")] + std[1:]))
+    H.append(Req("GET", "/", tag="h:te-gzip", raw_h1=b"POST /cgi/env.pl HTTP/1.1\r\nHost: c08.test\r\nTransfer-Encoding: gzip\r\n\r\n",
+                 raw_h2=std + [("te", "gzip")]))
     H.append(Req("POST", "/cgi/env.pl?flag=1", [("Content-Type", "text/plain"), ("X-Variant", "b")],
                  body=b"chunked body " * 20, chunked=True, tag="h:post-chunked"))
     H.append(Req("POST", "/cgi/env.pl", [("Expect", "100-continue")], body=b"expect", tag="h:post-expect"))
     H.append(Req("POST", "/cgi/env.pl?status=500", [("X-Variant", "b"), ("Cookie", "hist=1")], body=b"z" * 3000,
                  tag="h:post-abort", abort=1000))
     H.append(Req("POST", "/files/a.txt?flag=1", [("X-Variant", "b")], body=b"q" * 5000, tag="h:post-static-abort", abort=10))
-    H.append(Req("GET", "/files/b.txt", [("Connection", "close")], tag="h:conn-close"))
+    H.append(Req("GET", "/files/b.txt", [("Connection", "close")], tag="h:conn-close",
+                 raw_h2=std[:2] + [(":path", "/files/b.txt"), (":authority", "c08.test"), ("connection", "close")]))
     H.append(Req("GET", "/cgi/env.pl?status=302&hdr=loc", [("Cookie", "a=1"), ("Cookie", "b=2"), ("X-Forwarded-For", "10.9.8.7")],
                  tag="h:cookies-xff"))
     H.append(Req("PUT", "/files/new.txt", body=b"put body", tag="h:put"))
@@ -522,3 +536,345 @@ class H2Client(e2e.H2Conn):
 
     def goaway(self):
         return any(f[0] == 7 for f in self.frames)
+
+
+# =====================================================================================
+# observations: normalised (status, headers, body) of the probe's response
+# =====================================================================================
+DROP_ALWAYS = {b"date", b"connection", b"keep-alive", b"expires"}
+DROP_CROSS = {b"accept-ranges", b"cache-control", b"transfer-encoding"}
+ENV_DROP = {"REMOTE_PORT", "HTTP_CONNECTION"}
+ENV_DROP_CROSS = {"SERVER_PROTOCOL"}
+
+
+def norm_body(body, srv):
+    body = body.replace(srv.root.encode(), b"@ROOT@").replace(b":%d" % srv.port, b":@PORT@")
+    if b"GATEWAY_INTERFACE=CGI/1.1\n" in body:
+        env = {}
+        for ln in body.decode("latin-1").split("\n"):
+            if "=" in ln:
+                k, v = ln.split("=", 1)
+                env[k] = v
+        if env.get("SERVER_PORT") == str(srv.port):
+            env["SERVER_PORT"] = "@PORT@"
+        for k in ENV_DROP:
+            env.pop(k, None)
+        return env
+    return body
+
+
+def make_obs(status, headers, body, srv, ended=True, extra=None):
+    hs = sorted((k.lower().decode("latin-1"), v.decode("latin-1").replace(srv.root, "@ROOT@"))
+                for k, v in headers if k.lower() not in DROP_ALWAYS and not k.startswith(b":"))
+    nb = norm_body(body, srv)
+    if isinstance(nb, dict):
+        hs = [h for h in hs if h[0] != "content-length"]
+    o = {"status": status, "headers": hs, "body": nb, "complete": bool(ended)}
+    if extra:
+        o.update(extra)
+    return o
+
+
+def obs_key(o, cross=False):
+    """canonical comparable form"""
+    if o is None:
+        return None
+    hs = [h for h in o["headers"] if not (cross and h[0].encode() in DROP_CROSS)]
+    b = o["body"]
+    if isinstance(b, dict):
+        b = sorted((k, v) for k, v in b.items() if not (cross and k in ENV_DROP_CROSS))
+        bk = "env:" + json.dumps(b)
+    else:
+        bk = "raw:%d:%s" % (len(b), hashlib.sha256(b).hexdigest()[:20])
+    return json.dumps([o["status"], hs, bk, o["complete"]])
+
+
+def obs_diff(a, b, cross=False):
+    """human-readable difference between two observations"""
+    if a is None or b is None:
+        return "one side has no response"
+    out = []
+    if a["status"] != b["status"]:
+        out.append("status %s vs %s" % (a["status"], b["status"]))
+    ha = [h for h in a["headers"] if not (cross and h[0].encode() in DROP_CROSS)]
+    hb = [h for h in b["headers"] if not (cross and h[0].encode() in DROP_CROSS)]
+    for h in ha:
+        if h not in hb:
+            out.append("header only in first: %s: %s" % h)
+    for h in hb:
+        if h not in ha:
+            out.append("header only in second: %s: %s" % h)
+    ba, bb = a["body"], b["body"]
+    if isinstance(ba, dict) and isinstance(bb, dict):
+        for k in sorted(set(ba) | set(bb)):
+            if cross and k in ENV_DROP_CROSS:
+                continue
+            if ba.get(k) != bb.get(k):
+                out.append("env %s: %r vs %r" % (k, (ba.get(k) or "")[:80], (bb.get(k) or "")[:80]))
+    elif ba != bb:
+        out.append("body differs (%s vs %s bytes)" % (len(ba), len(bb)))
+    if a["complete"] != b["complete"]:
+        out.append("completeness %s vs %s" % (a["complete"], b["complete"]))
+    return "; ".join(out[:8])
+
+
+def h1_obs(resp, srv):
+    return make_obs(resp["status"], resp["headers"], resp["body"], srv)
+
+
+def h2_obs(d, srv):
+    if d is None:
+        return None
+    st = [v for k, v in d["headers"] if k == b":status"]
+    if not st:
+        return {"status": 0, "headers": [], "body": b"", "complete": False, "rst": d["rst"]}
+    # a RST_STREAM(NO_ERROR) after a complete response (request body not wanted) is connection management
+    return make_obs(int(st[0]), d["headers"], d["body"], srv, ended=d["end"])
+
+
+# =====================================================================================
+# scenarios
+# =====================================================================================
+class Unanswered(Exception):
+    pass
+
+
+def _h1_send_req(c, q, ver, nseg=1):
+    data = q.h1(ver)
+    if q.abort is not None and q.raw_h1 is None:
+        i = data.index(b"\r\n\r\n") + 4
+        c.send(data[:i + q.abort])
+        return "aborted"
+    c.heads.append(q.is_head())
+    c.send(data, nseg)
+    return "sent"
+
+
+def h1_history(srv, ver, hist, log):
+    """run history requests one at a time on keep-alive connection(s); returns an open client or None"""
+    c = None
+    for q in hist:
+        if c is None or c.closed:
+            c = H1Client(srv.port)
+            log.append("connect")
+        if _h1_send_req(c, q, ver) == "aborted":
+            time.sleep(0.01)
+            c.close()
+            c = None
+            log.append("%s: aborted+closed" % q.tag)
+            continue
+        n = len(c.heads)
+        rs, err = c.read(n)
+        if len(rs) < n:
+            log.append("%s: no response (%s)" % (q.tag, err))
+            c.close()
+            c = None
+            continue
+        r = rs[-1]
+        cl = (e2e.hdr(r, "connection") or b"").lower()
+        log.append("%s: %d%s" % (q.tag, r["status"], " close" if (b"close" in cl or c.closed) else ""))
+        if b"close" in cl or c.closed or (ver == 0 and b"keep-alive" not in cl):
+            c.close()
+            c = None
+    return c
+
+
+def h1_case(srv, case, log):
+    ver, mode, hist, q = case["ver"], case["mode"], case["hist"], case["probe"]
+    nseg = case.get("nseg", 1)
+    if mode in ("alone", "segmented"):
+        c = H1Client(srv.port)
+    elif mode == "keepalive":
+        c = h1_history(srv, ver, hist, log) or H1Client(srv.port)
+    elif mode == "recycled":
+        c = h1_history(srv, ver, hist, log)
+        if c is not None:
+            c.close()
+        time.sleep(0.02)
+        c = H1Client(srv.port)
+    elif mode == "pipelined":
+        c = H1Client(srv.port)
+        data = b""
+        for h in hist:
+            if h.abort is not None:
+                continue
+            data += h.h1(ver)
+            c.heads.append(h.is_head())
+        data += q.h1(ver)
+        c.heads.append(q.is_head())
+        c.send(data, nseg)
+        rs, err = c.read(len(c.heads))
+        c.close()
+        if len(rs) < len(c.heads):
+            raise Unanswered("pipelined: %d of %d responses (%s)" % (len(rs), len(c.heads), err))
+        return h1_obs(rs[-1], srv)
+    elif mode == "otherconn":
+        c = H1Client(srv.port)
+        data = q.h1(ver)
+        cut = max(1, data.index(b"\r\n") // 2)
+        c.send(data[:cut])
+        b = h1_history(srv, ver, hist, log)
+        c.heads.append(q.is_head())
+        c.send(data[cut:])
+        rs, err = c.read(1)
+        c.close()
+        if b is not None:
+            b.close()
+        if not rs:
+            raise Unanswered("otherconn: %s" % err)
+        return h1_obs(rs[-1], srv)
+    else:
+        raise ValueError(mode)
+    _h1_send_req(c, q, ver, nseg)
+    n = len(c.heads)
+    rs, err = c.read(n)
+    c.close()
+    if len(rs) < n:
+        raise Unanswered("%s: probe unanswered (%s)" % (mode, err))
+    return h1_obs(rs[-1], srv)
+
+
+def h2_history(srv, hist, log, c=None):
+    for q in hist:
+        if c is None or c.closed or c.goaway():
+            if c is not None:
+                c.close()
+            c = H2Client(srv.port)
+            log.append("connect")
+        sid = c.request(q)
+        st = c.wait([sid], timeout=0.05 if q.abort is not None else 6.0)
+        d = st.get(sid) if "error" not in st else None
+        s = [v for k, v in (d or {"headers": []})["headers"] if k == b":status"]
+        log.append("%s: %s%s%s" % (q.tag, s[0].decode() if s else "-", " rst=%s" % d["rst"] if d and d["rst"] is not None else "",
+                                   " goaway" if c.goaway() else ""))
+    return c
+
+
+def h2_upgrade(srv, first, log):
+    """start with an HTTP/1.1 Upgrade: h2c request; returns an H2Client whose stream 1 is `first`"""
+    c = H2Client(srv.port, preface=False)
+    hs = "".join("%s: %s\r\n" % kv for kv in first.headers)
+    c.send(("%s %s HTTP/1.1\r\nHost: %s\r\n%sConnection: Upgrade, HTTP2-Settings\r\nUpgrade: h2c\r\n"
+            "HTTP2-Settings: AAQAAP__\r\n\r\n" % (first.method, first.target, first.authority, hs)).encode("latin-1"))
+    buf = b""
+    c.s.settimeout(5)
+    while b"\r\n\r\n" not in buf:
+        d = c.s.recv(4096)
+        if not d:
+            raise Unanswered("h2c upgrade: connection closed")
+        buf += d
+    head, rest = buf.split(b"\r\n\r\n", 1)
+    if not head.startswith(b"HTTP/1.1 101"):
+        raise Unanswered("h2c upgrade refused: %r" % head[:40])
+    c.send(e2e.H2_PREFACE + e2e.h2_settings(((4, 1 << 30),)) + e2e.h2_window_update(0, 1 << 30))
+    fr, c.rx = e2e.h2_parse_frames(rest)
+    c.frames += fr
+    c.next_sid = 3
+    log.append("upgraded")
+    return c
+
+
+def h2_case(srv, case, log):
+    mode, hist, q = case["mode"], case["hist"], case["probe"]
+    if mode == "alone":
+        c = H2Client(srv.port)
+    elif mode == "sequential":
+        c = h2_history(srv, hist, log)
+    elif mode == "recycled":
+        c = h2_history(srv, hist, log)
+        if c is not None:
+            c.close()
+        time.sleep(0.02)
+        c = H2Client(srv.port)
+    elif mode == "h2c":
+        c = h2_upgrade(srv, hist[0] if hist else PROBES[4], log)
+        c.wait([1])
+        c = h2_history(srv, hist[1:], log, c)
+    elif mode == "h2c-probe":
+        c = h2_upgrade(srv, q, log)
+        st = c.wait([1])
+        c.close()
+        if "error" in st or 1 not in st:
+            raise Unanswered("h2c-probe: no response on stream 1")
+        return h2_obs(st[1], srv)
+    elif mode == "concurrent":
+        c = H2Client(srv.port)
+        pend = []
+        for h in hist[:6]:
+            sid = c.open(h, end=True)
+            if h.body is not None:
+                half = len(h.body) // 2 if h.abort is None else min(h.abort, len(h.body) // 2)
+                c.data(sid, h.body[:half], end=False)
+                pend.append((sid, h, half))
+        sid = c.request(q)
+        st = c.wait([sid])
+        for psid, h, half in pend:
+            if h.abort is not None:
+                c.send(e2e.h2_frame(3, 0, psid, struct.pack(">I", 8)))
+            else:
+                c.data(psid, h.body[half:], end=True)
+        st = c.wait([sid] + [p[0] for p in pend if p[1].abort is None], timeout=3.0)
+        c.close()
+        if "error" in st or sid not in st:
+            raise Unanswered("concurrent: probe unanswered%s" % (" (goaway)" if c.goaway() else ""))
+        return h2_obs(st[sid], srv)
+    elif mode == "burst":
+        c = H2Client(srv.port)
+        out, sids = b"", []
+        for h in list(hist[:6]) + [q]:
+            if h.body is not None and len(h.body) > 8000:
+                continue
+            sid = c.next_sid
+            c.next_sid += 2
+            c.swin[sid] = c.iwin
+            out += c.headers_frame(sid, h.h2_fields(), end_stream=h.body is None)
+            if h.body is not None:
+                n = len(h.body) if h.abort is None else h.abort
+                out += e2e.h2_frame(0, 0 if h.abort is not None else 1, sid, h.body[:n])
+                if h.abort is not None:
+                    out += e2e.h2_frame(3, 0, sid, struct.pack(">I", 8))
+            sids.append(sid)
+        if q.body is not None and len(q.body) > 8000:
+            raise Unanswered("burst: probe body too large for a burst")
+        c.send(out)
+        st = c.wait(sids)
+        c.close()
+        if "error" in st or sids[-1] not in st:
+            raise Unanswered("burst: probe unanswered%s" % (" (goaway)" if c.goaway() else ""))
+        return h2_obs(st[sids[-1]], srv)
+    elif mode == "otherconn":
+        c = H2Client(srv.port)
+        b = h2_history(srv, hist, log)
+        sid = c.request(q)
+        st = c.wait([sid])
+        c.close()
+        if b is not None:
+            b.close()
+        if "error" in st or sid not in st:
+            raise Unanswered("otherconn: probe unanswered")
+        return h2_obs(st[sid], srv)
+    else:
+        raise ValueError(mode)
+    if c is None or c.closed or c.goaway():
+        if c is not None:
+            c.close()
+        c = H2Client(srv.port)
+        log.append("connect")
+    sid = c.request(q)
+    st = c.wait([sid])
+    c.close()
+    if "error" in st or sid not in st:
+        raise Unanswered("%s: probe unanswered%s" % (mode, " (goaway)" if c.goaway() else ""))
+    return h2_obs(st[sid], srv)
+
+
+def run_case(srv, case):
+    """returns (observation|None, log, note)"""
+    log = []
+    try:
+        o = (h2_case if case["ver"] == 2 else h1_case)(srv, case, log)
+        return o, log, None
+    except Unanswered as ex:
+        return None, log, str(ex)
+    except (OSError, e2e.RespParseError, RuntimeError) as ex:
+        return None, log, "client error: %r" % (ex,)
